@@ -825,6 +825,9 @@ fn check(case: &WCase) -> Outcome {
     }
     if run.cfg.short_period {
         run.labels.insert("cfg:short_period");
+        if run.accepted.len() >= 3 {
+            run.labels.insert("short_period_with>=3_dial_backs");
+        }
     }
     if run.cfg.only_global {
         run.labels.insert("cfg:only_global_ips");
@@ -908,7 +911,34 @@ fn cfg() -> impl Strategy<Value = Cfg> {
     })
 }
 
+/// Structured sliding-window histories for the short (real-time) throttle period: four peers with one
+/// connection each; steps of (real sleep, honest request on some connection, usually fail the resulting
+/// dial at once so that the peer is free again).
+fn window_case() -> impl Strategy<Value = WCase> {
+    let step = (prop_oneof![3 => Just(0u8), 1 => Just(5u8), 2 => Just(15u8), 2 => Just(30u8), 1 => Just(50u8)], any::<u16>(), proptest::bool::weighted(0.85));
+    (1u8..=3, 1u8..=2, proptest::collection::vec(step, 5..11)).prop_map(|(global_max, peer_max, steps)| {
+        let mut ops = vec![];
+        for i in 0..N_CLIENTS {
+            ops.push(Op::Connect { peer: i, observed: vec![Comp::Ip4(vcore::gen::PUBLIC_V4[i as usize]), Comp::Tcp(4001)] });
+        }
+        for (ms, conn, resolve) in steps {
+            if ms > 0 {
+                ops.push(Op::Sleep { ms });
+            }
+            ops.push(Op::Request { conn, claim: None, addrs: vec![ReqAddr::Honest { suffix: vec![Comp::Tcp(1)], p2p: None }], hold: false, abandon: false });
+            if resolve {
+                ops.push(Op::Resolve { pick: 0, how: 1 });
+            }
+        }
+        WCase { cfg: Cfg { global_max, peer_max, max_addrs: 2, only_global: false, short_period: true }, ops }
+    })
+}
+
 fn wcase() -> impl Strategy<Value = WCase> {
+    prop_oneof![9 => generic_case(), 1 => window_case()]
+}
+
+fn generic_case() -> impl Strategy<Value = WCase> {
     (cfg(), (client_idx(), observed_addr()), (client_idx(), observed_addr()), proptest::collection::vec(op(), 3..22)).prop_map(|(cfg, c1, c2, ops)| {
         let mut all = vec![Op::Connect { peer: c1.0, observed: c1.1 }, Op::Connect { peer: c2.0, observed: c2.1 }];
         all.extend(ops);
@@ -920,7 +950,7 @@ pub fn run_world_part(ctx: &mut Ctx) {
     ctx.assume("behaviour-level half: transport, muxer and AutoNAT clients are simulated (simswarm world with one real Swarm<autonat::v1::Behaviour>; clients are hand-played on raw streams with an independent protobuf encoder); the Swarm, the connection pool / concurrent dial and request-response are trusted");
     ctx.assume("'the IP it observed for the requester' = the first IP component of the remote address of any currently established non-relayed connection of the requester as reported to the behaviour (the server does not distinguish the connection a request arrived on)");
     ctx.assume("a dial-back 'runs' from the ToSwarm::Dial command until the Swarm reports DialFailure or ConnectionEstablished for that connection id");
-    ctx.assume("throttling uses real time (web_time::Instant): most cases use a 1 h period (exact oracle), 12% a 40 ms period with real sleeps and a one-sided oracle (only dial-backs that are certainly inside one period are counted)");
+    ctx.assume("throttling uses real time (web_time::Instant): most cases use a 1 h period (exact oracle), about 20% a 40 ms period with real sleeps (half of them structured sliding-window histories) and a one-sided oracle (only dial-backs that are certainly inside one period are counted)");
     ctx.check(
         "server-world",
         "config (global max 0..3, per-peer max 0..2, address cap 1..3|16, only_global_ips 25%, period 1h | 40ms real) + 5..24 ops: 2..4 client peers connect from ip4/ip6/relayed/memory addresses (several connections each), send DialRequests (0..8 addresses: honest ones on the connection's IP, the alphabet of the pure sub-check incl. multi-IP / DNS / relay / foreign p2p, duplicates; 8% claim another peer id, 15% batched with the next op, 8% abandon the stream), the harness resolves the server's transport dials ok / error / wrong peer / never, closes connections, changes observed addresses, sleeps; oracle on every ToSwarm::Dial and transport dial; non-trivial = >=1 request refused while a dial-back was ongoing or at a throttle limit, and >=1 accepted dial-back whose request mixed valid and invalid addresses",
